@@ -441,6 +441,12 @@ func c05Feature(w *core.W, j int) {
 	w.Cover("type", l.Name)
 	// the harmless base itself
 	c05Both(w, c05Base(g, l), "/base/plain")
+	for _, ttl := range []uint32{0, 1<<31 - 1, 1 << 31, 1<<32 - 1} {
+		r := c05Base(g, l)
+		r.TTL = ttl
+		w.Cover("feature", fmt.Sprintf("ttl-%d", ttl))
+		c05Both(w, r, fmt.Sprintf("/ttl/%d", ttl))
+	}
 	for _, cf := range c05ClassFeatures {
 		r := c05Base(g, l)
 		r.Class = cf.class
@@ -894,7 +900,7 @@ func init() {
 		Rule: "every type with a presentation format: an otherwise plain record with one of 22 hostile contents (space, tab, quote, backslash, \\DDD-looking digits, trailing backslash, semicolon, parentheses, newline, CR, NUL, DEL, high-bit octets, $ and @, empty, 255 octets, dots, leading digit, #) injected into one text field or the owner at a time; fully random well-formed records; " +
 			"both wire-decoded and struct-built records: String() must be accepted by NewRR with identical header and octet-identical RDATA; an independent RFC 1035 s.5.1 tokenizer must accept the text and, for 56 regular types, read every field value back; " +
 			"names of the maximum length (255 octets, all-escaped = 1004 characters) as owner and in every name field; zones made of 2..5 String() lines (every type first, varied successors) read back record for record; RFC 3597 generic form and TYPEnnn/CLASSnnn/mnemonic/lower-case spellings for every type; all 65536 type and class codes in both spellings; non-trivial = distinct record wire",
-		Assumptions: []string{"OPT, TSIG, TKEY, NULL, ANY, NXNAME and RDATA-less records have no presentation format", "TTLs are kept below 2^31 (see C06 for TTL syntax)", "record classes with a C01 known finding are excluded"},
+		Assumptions: []string{"OPT, TSIG, TKEY, NULL, ANY, NXNAME and RDATA-less records have no presentation format", "record classes with a C01 known finding are excluded"},
 		MinObserved: []string{"roundtrips", "independent_reads", "generic_forms", "numeric_spellings", "codes", "zones"},
 	})
 }
